@@ -125,13 +125,20 @@ func b2s(b bool) string {
 }
 
 // isCredName is the harness' own reading of "Cookie, Set-Cookie, Authorization and
-// Proxy-Authorization, whatever the casing" (Unicode simple case folding, like the property's
-// "whatever the header-name casing"); it does not call caddy.
+// Proxy-Authorization, whatever the header-name casing": ASCII case-insensitive equality (header
+// names are ASCII tokens). It does not call caddy. (The unchanged tree also redacts the two
+// non-ASCII spellings strings.ToLower folds onto these names — over-redaction the property does
+// not ask for; the model mirrors it, the oracle does not insist on it.)
 func isCredName(k string) bool {
-	for _, n := range []string{"cookie", "set-cookie", "authorization", "proxy-authorization"} {
-		if strings.EqualFold(k, n) {
-			return true
+	b := []byte(k)
+	for i, c := range b {
+		if c >= 'A' && c <= 'Z' {
+			b[i] = c + 32
 		}
+	}
+	switch string(b) {
+	case "cookie", "set-cookie", "authorization", "proxy-authorization":
+		return true
 	}
 	return false
 }
